@@ -426,6 +426,11 @@ def h_scratch_pool(eng, abiname):
     left = n - k - r
     want = eng.choose("requested", sorted({x for x in (left - 1, left, left + 1, n) if x >= 0}))
     clobbers, reads = pool[:k], pool[k:k + r]
+    # a register the patch only reads need not be a scratch candidate at all (an argument register on MIPS, the frame
+    # pointer on ARM64): it simply is not handed out
+    outside = [x.name for x in abi.all_registers() if x.name not in pool and x.name not in SP_NAMES]
+    if outside and eng.choose("read_outside_pool", [False, True]):
+        reads = reads + [outside[0]]
     cons = Constraints(clobbers_registers=set(clobbers), reads_registers=set(reads), scratch_registers=want)
     try:
         alloc = abi._allocate_patch_registers(cons)
